@@ -40,7 +40,9 @@ def gen_sequence(rng, root):
             # non-file URIs whose path part names a file of the package: they are other documents, not aliases of it
             Doc("o2", "untitled:" + root + "/src/a.gleam"), Doc("o3", "git:" + root + "/src/b.gleam?ref=HEAD"),
             # a file of the package whose name is not valid UTF-8 (percent-encoded bytes): a document like any other
-            Doc("f5", "file://" + root + "/src/%FF%C3%28.gleam")]
+            Doc("f5", "file://" + root + "/src/%FF%C3%28.gleam"),
+            # a module deep below directories with long non-ASCII names (each component well under 255 bytes, the whole path over 1 KiB)
+            Doc("f6", "file://" + root + "/src/" + "/".join(("模块目录名称很长" * 4) + str(i) for i in range(11)) + "/深.gleam")]
     client = {}          # uri key -> editor text (only while every edit so far was valid); None = unknown to the oracle
     seq = []
     rid = 100
@@ -246,7 +248,7 @@ def encode_for_model(seq):
     c_exists = False
     for op in seq:
         if op[0] == "open":
-            if (op[1].key in DISK or op[1].key == "f5") and not loaded:
+            if (op[1].key in DISK or op[1].key in ("f5", "f6")) and not loaded:
                 # the first didOpen of a file of the package loads every file of the package from disk
                 loaded = True
                 for k, t in DISK.items():
@@ -465,6 +467,10 @@ def run_c13_blackbox(res, tier, seed):
                 Doc("o1", "untitled:Untitled-1"), Doc("f9", "file://" + root + "/src/never.gleam")]
         cur = rand_text(rng, rng.randrange(0, 25))
         seq = [("open", d, cur)]
+        if rng.random() < 0.5:
+            # another file of the package was opened before: the document is already known to the server with the
+            # content it has on disk (another text, another line table) when the editor's version arrives
+            seq = [("open", docs[1], rand_text(rng, rng.randrange(0, 12))), ("open", d, cur)]
         for _ in range(rng.randrange(1, 6)):
             changes = []
             for _c in range(rng.randrange(1, 5)):
